@@ -59,6 +59,12 @@ def ksolved_renamed(kk, zz, c0):
     yy = kk + 0.5 * zz
     return kres, yy
 
+@solved(unknowns={'kk': (-10.0, 10.0)}, targets=['gap'], solver='brentq')
+def ksolved_renamed2(kk, zz, kres):
+    gap = 4 * kk - kk(-1) - zz - 0.125 * kk * kk(+1) + kres
+    yy = kk + 0.5 * zz
+    return gap, yy
+
 @simple
 def drive_renamed(shock, X):
     zz = 1 + shock + 0.25 * X(-1)
@@ -542,7 +548,7 @@ def check_remapped_solved_in_model():
     ref = combine([m.drive_renamed, m.ksolved_renamed, m.close], name='ref')
     mod = combine([m.drive_renamed, m.ksolved.remap(ren), m.close], name='rem')
     sh = {'shock': 0.05 * 0.5 ** np.arange(T)}
-    opts = lambda name: {name: dict(verbose=False), 'ksolved': dict(verbose=False), 'ksolved_renamed': dict(verbose=False)}
+    opts = lambda name: {name: dict(verbose=False), 'ksolved': dict(verbose=False), 'ksolved_renamed': dict(verbose=False), 'ksolved_renamed2': dict(verbose=False)}
     ss0, ss1 = ref.steady_state(cal), mod.steady_state(cal)
     calls = [('solve_impulse_linear', lambda b, ss: b.solve_impulse_linear(ss, ['X'], ['xres'], sh)),
              ('solve_impulse_nonlinear', lambda b, ss: b.solve_impulse_nonlinear(ss, ['X'], ['xres'], sh, options=opts(b.name))),
@@ -566,6 +572,34 @@ def check_remapped_solved_in_model():
         if bad:
             C.push(out, dict(what='a model containing a remapped solved block does not behave like the same equations written with the new names', input=dict(kind='remapped-solved-in-model', call=label, mapping=ren),
                              observed=bad[:4], signature=dict(op='remapped-solved-in-model', call=label)))
+    # a renaming that REUSES an old name (target kres -> gap, parameter c0 -> kres) and ONE saved-Jacobian dictionary handed to several calls in a row
+    ren2 = {'k': 'kk', 'zin': 'zz', 'ky': 'yy', 'kres': 'gap', 'c0': 'kres'}
+    cal2 = dict(shock=0.0, X=1.0, kres=0.25)
+    try:
+        ref2 = combine([m.drive_renamed, m.ksolved_renamed2, m.close], name='ref2')
+        mod2 = combine([m.drive_renamed, m.ksolved.remap(ren2), m.close], name='rem2')
+        r0, r1 = ref2.steady_state(cal2), mod2.steady_state(cal2)
+        Jr, Jm = ref2.partial_jacobians(r0, ['shock', 'X'], T=T), mod2.partial_jacobians(r1, ['shock', 'X'], T=T)
+        seq = [('impulse_linear #1', lambda b, ss, J: b.impulse_linear(ss, sh, Js=J)), ('impulse_linear #2', lambda b, ss, J: b.impulse_linear(ss, sh, Js=J)),
+               ('jacobian', lambda b, ss, J: b.jacobian(ss, ['shock', 'X'], T=T, Js=J)), ('impulse_linear #3', lambda b, ss, J: b.impulse_linear(ss, sh, Js=J)),
+               ('impulse_nonlinear', lambda b, ss, J: b.impulse_nonlinear(ss, sh, Js=J, options=opts(b.name)))]
+        for label, f in seq:
+            n += 1
+            want = f(ref2, r0, Jr)
+            try:
+                got = f(mod2, r1, Jm)
+                if hasattr(want, 'nesteddict'):
+                    bad = [f'{o}/{i}' for o in want.outputs for i in want.nesteddict[o] if (o, i) not in jac_dense(got, T) or not np.allclose(jac_dense(got, T)[(o, i)], jac_dense(want, T)[(o, i)], atol=1e-9)]
+                else:
+                    bad = [k for k in want.toplevel if k not in got.toplevel or not np.allclose(got[k], want[k], atol=1e-9)]
+            except Exception as ex:
+                bad = [f'raised {type(ex).__name__}: {ex}']
+            if bad:
+                C.push(out, dict(what='a model containing a remapped solved block, given the SAME saved Jacobians in several calls in a row, stops behaving like the same equations written with the new names',
+                                 input=dict(kind='remapped-solved-in-model', call=label, mapping=ren2, history=[x[0] for x in seq[:[x[0] for x in seq].index(label)]]), observed=bad[:4],
+                                 signature=dict(op='remapped-solved-in-model', call=label, reused_name=True)))
+    except Exception as ex:
+        out.append(dict(what=f'remapped solved block with a reused name: probe raised {type(ex).__name__}: {ex}', input=dict(kind='remapped-solved-in-model', call='setup', mapping=ren2), signature=dict(op='raise', where='reused-name')))
     return out, n
 
 
